@@ -2,6 +2,6 @@
 export PATH=/opt/veriftools/go1.26.8/bin:$PATH
 export GOTOOLCHAIN=local GOPROXY=off GOSUMDB=off GONOSUMDB='*' GONOSUMCHECK=1
 unset GOWORK
-export GOFLAGS=-mod=readonly
+export GOFLAGS="-mod=readonly -trimpath"
 export VERIF_ROOT="${VERIF_ROOT:-$(cd "$(dirname "${BASH_SOURCE[0]}")" && pwd)}"
 export VERIF_REPO="${VERIF_REPO:-/repo}"
